@@ -82,6 +82,28 @@ MOS.append(
              lambda F: (FnCheck(F, H + "insert").precedes(call(r"= (hnsw_backend::)?normalize_in_place_if_needed\(", name="normalize_in_place_if_needed"), call(r"= HnswVectorIndex::validate_vector\(", name="validate_vector")) if FnCheck(F, H + "insert").count(call(r"= HnswVectorIndex::validate_vector\(", name="validate_vector")) else Result("holds", "validate_vector absent: reported by the ONLY_VIA obligation above"))),
        functions=[("hnsw_backend.rs", "insert")], role="preflight-weaker-than-index"))
 
+def capacity_gate(F):
+    """HnswBackend::insert: the WAL append is reached only if the index reported free capacity (is_full() == false) in the
+    pre-flight made under the write gate of the same attempt — for new ids and overwrites alike (an overwrite appends a new
+    slot too).  Otherwise the index refuses the vector after the append and the compensating Delete destroys the previous
+    version of an overwritten document after restart.  This discharges the assumption 'index not full' of the Kani rows O3.1/*."""
+    from vlib import mirdec as MD
+    GATE = call(r"= Mutex::<\(\)>::lock\(", name="write_gate.lock()")
+    FULL = call(r"= HnswVectorIndex::is_full\(", name="index.is_full()")
+    out = MD.decides(F, H + "insert", GATE, {"append": WAL_APPEND}, [("full", r"^call HnswVectorIndex::is_full$")], {"append": ("=>", "(not full)")}, containing=WAL_APPEND,
+                     what="HnswBackend::insert appends to the WAL only if index.is_full() was false in this attempt's pre-flight")
+    fc = FnCheck(F, H + "insert", containing=WAL_APPEND)
+    if fc.fn is not None:
+        out.append(fc.held(GATE, FULL))
+        out.append(fc.held(GATE, WAL_APPEND))
+        out.append(fc.precedes(FULL, WAL_APPEND))
+    return out
+
+
+MOS.append(MO("O3.1/capacity_gate", "HnswBackend::insert: WAL append only after index.is_full() == false, both under the same write-gate acquisition (DECIDES + HELD); discharges the 'index not full' assumption of O3.1/*",
+              capacity_gate, functions=[("hnsw_backend.rs", "insert")], role="preflight-weaker-than-index"))
+
+
 def rollback_args(F):
     """The rollback target is the stable state captured by the caller before the first attempt: the arguments passed to
     rollback_to_stable_state are exactly this function's (stable_offset, stable_entry_count) parameters."""
